@@ -121,6 +121,9 @@ T = {
     "BVExtract": (lambda ts, i: ts[0].is_bv_type() and 0 <= i[0] <= i[1] < W(ts[0]),
                   lambda v, ts, i: (v[0] >> i[0]) & ((1 << (i[1] - i[0] + 1)) - 1)),
     "BVZExt": (lambda ts, i: ts[0].is_bv_type() and i[0] >= 0, lambda v, ts, i: v[0]),
+    # i[0] >= 2 copies of a bit-vector; one copy is the term itself, of whatever type
+    "BVRepeat": (lambda ts, i: i[0] == 1 or (ts[0].is_bv_type() and i[0] >= 1),
+                 lambda v, ts, i: v[0] if i[0] == 1 else sum(v[0] << (j * W(ts[0])) for j in range(i[0]))),
     "BVSExt": (lambda ts, i: ts[0].is_bv_type() and i[0] >= 0,
                lambda v, ts, i: signed(v[0], W(ts[0])) % (1 << (W(ts[0]) + i[0]))),
     "BVRol": (lambda ts, i: ts[0].is_bv_type() and 0 <= i[0] <= W(ts[0]), lambda v, ts, i: rot(v[0], i[0], W(ts[0]), True)),
@@ -187,7 +190,7 @@ def check_constructor(env, name, method, prefix, nary, args, ints, trials=12, se
         ok = False
     call = list(prefix) + ([list(args)] if nary else list(args)) + list(ints)
     try:
-        res = getattr(mgr, method)(*call)
+        res = method(*call) if callable(method) else getattr(mgr, method)(*call)
     except Exception as e:
         if ok:
             return {"clause": "C03:raises-only-if-ill-formed", "exception": "%s: %s" % (type(e).__name__, str(e)[:120])}
